@@ -116,11 +116,21 @@ def nopanic_rule(ctx, facts, cfg):
         if not panic_sites(f):
             continue
         nb += 1
-        e4 = E4(facts, soft_widen=k.endswith('copy_raw_name_from_str'), opaque=[] if k.endswith('copy_raw_name_from_str') else ['gen::copy_raw_name_from_str'])
-        try:
-            S = e4.summarize(k)
-        except Exception as e:  # noqa
-            ctx.violation(rid, k, 'undecided', 'cannot analyse %s: %s: %s' % (k, type(e).__name__, e), kind='undecided', config=cfg)
+        own = k.endswith('copy_raw_name_from_str')
+        S = None
+        err = None
+        # the name conversion: plain widening first, the relaxing join (slow without overflow checks) only if something stays open
+        for soft in ((False, True) if own else (False,)):
+            e4 = E4(facts, soft_widen=soft, opaque=[] if own else ['gen::copy_raw_name_from_str'], budget_s=600 if soft else None)
+            try:
+                S = e4.summarize(k)
+                err = None
+            except Exception as e:  # noqa
+                S, err = None, e
+            if S is not None and not [o for o in e4.open_obligations() if o.get('ctx') == k] and len(S.pre) <= 1:
+                break
+        if S is None:
+            ctx.violation(rid, k, 'undecided', 'cannot analyse %s: %s: %s' % (k, type(err).__name__, err), kind='undecided', config=cfg)
             continue
         for what, n in sorted(e4.unmodelled().items()):
             ctx.violation(rid, k, 'unmodelled:' + str(what).split(': ', 1)[-1][:60], 'unmodelled construct while analysing %s: %s' % (k, what), kind='undecided', config=cfg)
@@ -149,6 +159,13 @@ def nopanic_rule(ctx, facts, cfg):
 
         def shape(site_):
             """('sum-of-lengths' | 'unit-increment-64' | 'sub-48' | None) for the overflow assert at this site, read off the MIR"""
+            defs_ = F.single_defs(f)
+            mw_ = re.search(r'@wrap:(.+)$', site_)
+            if mw_:
+                # build without overflow checks: the unchecked Add/Sub statement(s) at that source position
+                rvs_ = [s_['rv'] for _, b_ in F.blocks(f) for s_ in b_['stmts'] if s_['k'] == 'assign' and s_.get('at') == mw_.group(1) and s_['rv']['k'] == 'binop' and s_['rv']['op'] in ('Add', 'Sub', 'Mul')]
+                shapes_ = {_shape_of(rv_, defs_) for rv_ in rvs_}
+                return shapes_.pop() if len(shapes_) == 1 else None
             m_ = re.search(r'@bb(\d+):', site_)
             if not m_:
                 return None
@@ -156,14 +173,15 @@ def nopanic_rule(ctx, facts, cfg):
             tt = blk['term']
             if tt['k'] != 'assert':
                 return None
-            defs_ = F.single_defs(f)
             c = tt['cond']
             if c['k'] not in ('copy', 'move'):
                 return None
             d_ = defs_.get(c['place']['local'])
             if not d_ or d_[0] != 'rv' or d_[1]['k'] != 'binop':
                 return None
-            rv_ = d_[1]
+            return _shape_of(d_[1], defs_)
+
+        def _shape_of(rv_, defs_):
             if rv_['op'].startswith('Add'):
                 rs_ = F.roots(f, defs_, rv_['l']) + F.roots(f, defs_, rv_['r'])
                 def _is_len(r_):
@@ -239,8 +257,9 @@ def nopanic_rule(ctx, facts, cfg):
     r['ok'] += done
     ctx.obligations += total
     ctx.discharged += done
-    if nb < 12:
-        ctx.violation(rid, '<floor>', 'bodies with panic sites', 'only %d bodies with potential panic sites analysed, expected about 15' % nb, kind='below-floor')
+    need = 12 if facts.config != 'release' else 6   # without overflow checks fewer bodies contain a potential panic at all
+    if nb < need:
+        ctx.violation(rid, '<floor>', 'bodies with panic sites', 'only %d bodies with potential panic sites analysed, expected at least %d' % (nb, need), kind='below-floor')
     # every unwrap/expect site in scope must have been seen as an obligation above (fail closed on unmodelled receivers)
     for k in sorted(seen):
         f = facts.fns[k]
